@@ -23,11 +23,14 @@ Max2(a, b) == IF a >= b THEN a ELSE b
 Min2(a, b) == IF a <= b THEN a ELSE b
 
 \* Inner::new's assertions
+\* (current tree: a view without columns or rows has nothing to hold; the pinned tree applied the size
+\* assertions to such views too)
 CtorOK(w, h, stride, len) ==
   /\ w <= stride
-  /\ (h <= 1 \/ stride <= len)
-  /\ h <= len
-  /\ (h > 0 => (h - 1) * stride + w <= len)
+  /\ (Variant = "fixed" /\ (w = 0 \/ h = 0)) \/
+       /\ (h <= 1 \/ stride <= len)
+       /\ h <= len
+       /\ (h > 0 => (h - 1) * stride + w <= len)
 
 \* the abstract window, relative to the start of the data slice
 Win(v) == {y * v.stride + x : x \in 0..(v.w - 1), y \in 0..(v.h - 1)}
@@ -54,6 +57,9 @@ FillAddrs(v) == IF IsContiguous(v) THEN (IF Variant = "fixed" THEN 0..(v.w * v.h
 \* rect = [l, t, r, b]; result [ok, off, view]
 Slice(v, q) ==
   IF ~(q.l <= q.r /\ q.t <= q.b /\ q.r <= v.w /\ q.b <= v.h) THEN [ok |-> FALSE, off |-> 0, view |-> v]
+  \* (current tree: an empty rectangle covers no elements, wherever it lies: the empty prefix of the data)
+  ELSE IF Variant = "fixed" /\ (q.l = q.r \/ q.t = q.b)
+  THEN [ok |-> TRUE, off |-> 0, view |-> [w |-> q.r - q.l, h |-> q.b - q.t, stride |-> v.stride, len |-> 0]]
   ELSE LET start == q.t * v.stride + q.l
            end == IF q.b = q.t THEN q.t * v.stride + q.r ELSE (q.b - 1) * v.stride + q.r
            w2 == q.r - q.l  h2 == q.b - q.t
@@ -93,13 +99,14 @@ RowsRefines ==
 \* fill(): writes exactly the window
 FillRefines == FillAddrs(v) = Win(v)
 
-\* slice(): a non-empty in-bounds rectangle yields the sub-window; an out-of-bounds one is rejected;
+\* slice(): an in-bounds rectangle yields the sub-window (none for an empty one); an out-of-bounds one is rejected;
 \* whatever is yielded (also for empty rectangles) is a window inside the parent's window or empty
 SliceRefines ==
   \A q \in Rects :
     LET s == Slice(v, q)
         inb == q.l <= q.r /\ q.t <= q.b /\ q.r <= v.w /\ q.b <= v.h
     IN /\ (~inb => ~s.ok)
+       /\ (inb => s.ok)                                       \* every in-bounds rectangle, empty ones too
        /\ (inb /\ q.l < q.r /\ q.t < q.b) =>
             /\ s.ok
             /\ {s.off + a : a \in Win(s.view)} = {y * v.stride + x : x \in q.l..(q.r - 1), y \in q.t..(q.b - 1)}
